@@ -121,6 +121,17 @@ S("fnptr_local", "f", """
 int inc(int x) { return x + 1; }
 int f(int a) { int (*p)(int) = inc; return p(a) * 2; }
 """)
+S("fnptr_live_across", "f", """
+int mix(int a, int b) { int c = a * 3 + b; int d = b * 5 - a; int e = c ^ d; int g = (c & d) + (e << 2); int h = g - c + d * e; return h + (g ^ a) + (e | b) + c * d; }
+int apply(int (*p)(int, int), int a, int b) { int r = p(a, b); return r + a * 3 + b; }
+int f(int a, int b) { return apply(mix, a, b) - apply(mix, b, a); }
+""")
+S("fnptr_global_table", "f", """
+int add3(int a, int b, int c) { int t = a + b; int u = b + c; int v = a ^ c; return t * u + v + (t & u) - (u | v); }
+int sub3(int a, int b, int c) { int t = a - b; int u = b - c; int v = a & c; return t + u * v + (t ^ u) + (u << 1); }
+int (*tab[2])(int, int, int) = { add3, sub3 };
+int f(int a, int b) { int x = a + 1; int y = b + 2; int r = tab[a & 1](a, b, x); return r + x * y + a - b; }
+""")
 S("switch_dense", "f", """
 int f(int a, int b) { switch (a & 7) { case 0: return b; case 1: return b + 1; case 2: return b * 2; case 3: return b - 3; case 4: return b ^ 4; case 5: return b | 5; case 6: return b & 6; default: return -b; } }
 """)
